@@ -12,7 +12,7 @@ from typing import Callable, Dict, List, Optional, Set, Tuple
 from ..cfg import STMT, TEST, FOR, CFG, Node
 from ..model import stmt_key, AnalysisError, FuncInfo, parent
 from ..report import rule, Collector
-from .common import RuleCtx, where_of, line_of, dedupe, expand_names
+from .common import RuleCtx, where_of, line_of, dedupe, expand_names, untag
 from .eff import _functions, module_methods
 from .extra import norm, _names, _dependent_names
 
@@ -267,6 +267,7 @@ def r_stale_loop(ctx: RuleCtx, col: Collector):
                 inputs: Set[str] = set()
                 work = [r]
                 seen = set()
+                recurrent = False
                 while work:
                     nm = work.pop()
                     if nm in seen:
@@ -275,9 +276,15 @@ def r_stale_loop(ctx: RuleCtx, col: Collector):
                     for d in defs.get(nm, []):
                         if isinstance(d, ast.Assign):
                             for x in _names(d.value):
+                                if x == r and nm != r:
+                                    recurrent = True      # r <- ... <- nm <- r: r is loop-carried state, not a derived value
                                 if x != nm:
                                     inputs.add(x)
                                     work.append(x)
+                if recurrent:
+                    # an iterate (bisection bracket, running solution): each pass advances it from its own previous value;
+                    # the notion "computed from v, so stale when v changes" applies to derived quantities only
+                    continue
                 # statements inside the loop nest rooted at the outermost enclosing loop that change an input *directly*
                 outer = w
                 p = parent(w)
@@ -529,44 +536,119 @@ def r_concat_fresh(ctx: RuleCtx, col: Collector):
 
 
 # ------------------------------------------------------------------------------------------- last-index scans
+def _scan_direction(it: ast.AST) -> Optional[str]:
+    """'fwd' / 'rev' for the iteration orders a positional scan uses; None when not recognised"""
+    t = norm(it)
+    if t.startswith(("reversed(", "list(reversed(")) or t.endswith("[::-1]") or t.endswith(",-1,-1)") or t.endswith("[::-1])"):
+        return "rev"
+    if t.startswith(("enumerate(", "range(")) or isinstance(it, (ast.Name, ast.Attribute)):
+        return "fwd"
+    return None
+
+
 @rule("R-LAST-SCAN", floor=1)
 def r_last_scan(ctx: RuleCtx, col: Collector):
     """finite_difference locates the sub-chain of a Network as [first module reading an input ... LAST module writing
-    an output]: the scan that records the last index visits every module (no break)."""
+    an output] and evaluates `mods[first:last+1]`: the index used as the upper bound is that of the last match - found
+    by a forward scan that visits every module and keeps overwriting (no break, no 'only if unset' guard), or by the
+    first hit of a reversed scan."""
     m = ctx.model
-    f = m.public_function("finite_difference")
+    f0 = m.public_function("finite_difference")
+    # finite_difference and the private helpers of its module it calls
+    funcs = [f0]
+    seen = {f0.qual}
+    i = 0
+    while i < len(funcs):
+        for x in ast.walk(funcs[i].node):
+            if isinstance(x, ast.Call) and isinstance(x.func, ast.Name):
+                g = f0.module.functions.get(x.func.id)
+                if g is not None and g.qual not in seen:
+                    seen.add(g.qual)
+                    funcs.append(g)
+        i += 1
     n_found = 0
-    for lp in [n for n in ast.walk(f.node) if isinstance(n, ast.For)]:
-        if not (isinstance(lp.iter, ast.Call) and norm(lp.iter.func) == "enumerate" and isinstance(lp.target, ast.Tuple) and
-                isinstance(lp.target.elts[0], ast.Name)):
-            continue
-        idx = lp.target.elts[0].id
-        # names assigned the loop index unconditionally-on-match (no 'only if unset' guard) = last-match records
-        last = []
-        for n in ast.walk(lp):
-            if isinstance(n, ast.Assign) and isinstance(n.targets[0], ast.Name) and isinstance(n.value, ast.Name) and n.value.id == idx:
-                tgt = n.targets[0].id
-                g = parent(n)
-                first_only = False
-                while g is not lp and g is not None:
-                    if isinstance(g, ast.If) and tgt in _names(g.test):
-                        first_only = True
-                    g = parent(g)
-                if not first_only:
-                    last.append((tgt, n))
-        if not last:
-            continue
-        n_found += 1
-        brk = [x for b in lp.body for x in ast.walk(b) if isinstance(x, ast.Break)]
-        construct = f"finite_difference: scan recording the last index '{last[0][0]}'"
-        if brk:
-            col.bad(where_of(f), f.rel, line_of(brk[0]), construct,
-                    f"'{last[0][0]}' must end up as the index of the LAST matching module, but the scan is left by a break: "
-                    f"modules producing the remaining outputs fall outside the evaluated sub-network and report 0 = 0")
-        else:
-            col.ok(where_of(f), f.rel, line_of(lp), construct, "the loop visits every module")
+    for f in funcs:
+        uppers = []
+        for x in ast.walk(f.node):
+            # <modules>[lo : hi + 1] handed to a Network(...)
+            if isinstance(x, ast.Call) and norm(x.func).split(".")[-1] == "Network" and x.args and isinstance(x.args[0], ast.Subscript) \
+                    and isinstance(x.args[0].slice, ast.Slice) and x.args[0].slice.upper is not None:
+                up = x.args[0].slice.upper
+                if isinstance(up, ast.BinOp) and isinstance(up.op, ast.Add) and isinstance(up.left, ast.Name) and norm(up.right) == "1":
+                    uppers.append((up.left.id, x))
+        for name, site in uppers:
+            n_found += 1
+            construct = f"finite_difference: index '{name}' of the last module of the sub-chain"
+            verdicts = []
+            for st in ast.walk(f.node):
+                if not isinstance(st, ast.Assign):
+                    continue
+                tg = st.targets[0]
+                if isinstance(tg, ast.Tuple) and isinstance(st.value, ast.Tuple) and len(tg.elts) == len(st.value.elts):
+                    pairs = list(zip(tg.elts, st.value.elts))
+                else:
+                    pairs = [(tg, st.value)]
+                for t, v in pairs:
+                    if not (isinstance(t, ast.Name) and t.id == name):
+                        continue
+                    if isinstance(v, ast.Constant) or (isinstance(v, ast.UnaryOp) and isinstance(v.operand, ast.Constant)):
+                        continue        # the 'not found' initial value
+                    lp = parent(st)
+                    while lp is not None and lp is not f.node and not isinstance(lp, (ast.For, ast.While)):
+                        lp = parent(lp)
+                    if isinstance(lp, ast.For):
+                        d = _scan_direction(lp.iter)
+                        first_only = False
+                        g = parent(st)
+                        while g is not lp and g is not None:
+                            if isinstance(g, ast.If) and name in _names(g.test):
+                                first_only = True
+                            g = parent(g)
+                        brk = [y for b in lp.body for y in ast.walk(b) if isinstance(y, ast.Break)]
+                        if d == "fwd":
+                            if brk:
+                                verdicts.append((False, brk[0], f"'{name}' must end up as the index of the LAST matching module, but the "
+                                                 f"forward scan is left by a break: modules producing the remaining outputs fall outside "
+                                                 f"the evaluated sub-network and report 0 = 0"))
+                            elif first_only:
+                                verdicts.append((False, st, f"'{name}' is only recorded while unset in a forward scan: it is the FIRST "
+                                                 f"matching module, later modules producing outputs fall outside the evaluated sub-network"))
+                            else:
+                                verdicts.append((True, lp, "the forward scan visits every module and keeps the last match"))
+                        elif d == "rev":
+                            if brk or first_only:
+                                verdicts.append((True, lp, "first match of a reversed scan"))
+                            else:
+                                verdicts.append((False, st, f"'{name}' is overwritten throughout a reversed scan: it ends up as the "
+                                                 f"FIRST matching module, not the last"))
+                        else:
+                            raise AnalysisError(f"finite_difference: order of the scan '{norm(lp.iter)}' not recognised")
+                    elif isinstance(v, ast.Call) and norm(v.func) in ("next", "max", "min") and v.args and isinstance(v.args[0], ast.GeneratorExp):
+                        ge = v.args[0]
+                        d = _scan_direction(ge.generators[0].iter)
+                        fn = norm(v.func)
+                        if fn == "max":
+                            verdicts.append((True, st, "largest matching index"))
+                        elif fn == "min":
+                            verdicts.append((False, st, f"'{name}' is the smallest matching index: the FIRST matching module, not the last"))
+                        elif d == "rev":
+                            verdicts.append((True, st, "first match of a reversed scan"))
+                        elif d == "fwd":
+                            verdicts.append((False, st, f"'{name}' is the first match of a forward scan: the FIRST matching module, "
+                                             f"not the last; later modules producing outputs fall outside the evaluated sub-network"))
+                        else:
+                            raise AnalysisError(f"finite_difference: order of the scan '{norm(ge.generators[0].iter)}' not recognised")
+                    else:
+                        raise AnalysisError(f"finite_difference: definition '{stmt_key(st)}' of the sub-chain end not recognised")
+            if not verdicts:
+                raise AnalysisError(f"finite_difference: no definition of the sub-chain end '{name}' found")
+            for okv, at, msg in verdicts:
+                if okv:
+                    col.ok(where_of(f), f.rel, line_of(at), construct, msg)
+                else:
+                    col.bad(where_of(f), f.rel, line_of(at), construct, msg)
     if n_found == 0:
-        raise AnalysisError("finite_difference: sub-chain scan not recognised")
+        raise AnalysisError("finite_difference: sub-chain construction Network(mods[first:last+1]) not recognised")
 
 
 # ------------------------------------------------------------------------------------------- solver typestate
@@ -968,7 +1050,7 @@ def r_pad_slot(ctx: RuleCtx, col: Collector):
             # later statements of the same branch that identify the edge (pad1b = np.pad(.., mode=..) follow an elif on the type)
             mention_want = any(want in t for t in tests)
             mention_other = any(other in t for t in tests)
-            construct = f"_process_padding: slot {k} ({'before' if k == 0 else 'after'}) of '{stmt_key(n)}'"
+            construct = f"_process_padding: slot {k} ({'before' if k == 0 else 'after'}) of '{untag(stmt_key(n))}'"
             if mention_other and not mention_want:
                 col.bad(where_of(f), f.rel, line_of(n), construct,
                         f"the {'low' if k == 0 else 'high'}-side pad width is set under a test of '{other}', the boundary type of the "
@@ -978,13 +1060,47 @@ def r_pad_slot(ctx: RuleCtx, col: Collector):
             else:
                 # unconditional: decided by the enclosing edge section; accept when the *other* slot is the literal 0
                 oth = n.value.elts[1 - k]
-                if isinstance(oth, ast.Constant) and oth.value == 0:
-                    # which edge does this section process?  the next np.pad consumers are guarded by the edge type
-                    users = [x for x in ast.walk(f.node) if isinstance(x, ast.If) and getattr(x, "lineno", 0) > n.lineno]
-                    first = users[0] if users else None
-                    if first is not None and want in norm(first.test):
+                if isinstance(oth, ast.Constant) and oth.value == 0 and isinstance(n.targets[0], (ast.Name, ast.Subscript)):
+                    # which edge does this width serve?  the np.pad calls consuming it name the edge type in their mode or
+                    # sit under tests of it
+                    from .common import dominating_tests
+                    root = n.targets[0]
+                    while isinstance(root, ast.Subscript):
+                        root = root.value
+                    # names the width flows into (not through the padded arrays themselves)
+                    import copy as _copy
+
+                    class _NoPad(ast.NodeTransformer):
+                        def visit_Call(self, x):
+                            self.generic_visit(x)
+                            if norm(x.func).split(".")[-1] == "pad":
+                                return ast.copy_location(ast.Constant(value=0), x)
+                            return x
+                    dep = _dependent_names(_NoPad().visit(_copy.deepcopy(f.node)), {root.id}) | {root.id}
+                    # the definition reaches a consumer when no other width pair is stored to the same target in between
+                    kills = [cfg.node_of(o) for o in ast.walk(f.node) if isinstance(o, ast.Assign) and o is not n
+                             and norm(o.targets[0]) == norm(n.targets[0])]
+                    live = cfg.reachable([s_ for s_, l_ in nd.succ if l_ != "exc"], blocked=[k_ for k_ in kills if k_ is not None],
+                                         labels_excluded=("exc",)) if nd is not None else set()
+                    mentioned = set()
+                    for x in ast.walk(f.node):
+                        if not (isinstance(x, ast.Call) and norm(x.func).split(".")[-1] == "pad"):
+                            continue
+                        if not any(_names(a) & dep for a in x.args[1:] + [kw.value for kw in x.keywords]):
+                            continue
+                        st = x
+                        while not isinstance(st, ast.stmt):
+                            st = parent(st)
+                        nd2 = cfg.node_of(st)
+                        if nd2 is None or nd2 not in live:
+                            continue
+                        exprs = [t for t, _pol in dominating_tests(cfg, nd2)] + [kw.value for kw in x.keywords]
+                        for e_ in (want, other):
+                            if any(e_ in _names(t) for t in exprs):
+                                mentioned.add(e_)
+                    if mentioned == {want}:
                         col.ok(where_of(f), f.rel, line_of(n), construct, f"section of '{want}'")
-                    elif first is not None and other in norm(first.test):
+                    elif mentioned == {other}:
                         col.bad(where_of(f), f.rel, line_of(n), construct,
                                 f"this pad width is consumed under tests of '{other}' but fills the {'low' if k == 0 else 'high'} side")
                     else:
